@@ -19,6 +19,10 @@ def _num(t):
     return repr(n / d)
 
 
+# ATLAS jet moments (Universe.tla, mode "moment"): how the query spells the access
+MOMENTS = {"momf": "getAttributeFloat", "momv": "getAttributeVectorFloat"}
+
+
 def render(t, uni, backend, style=None, md=None):
     """md: list of metadata dicts to attach to the dataset (None = the universe's declarations)."""
     style = style or Style()
@@ -62,8 +66,14 @@ def render(t, uni, backend, style=None, md=None):
             if not name:
                 raise ValueError("backend %s has no collection %s" % (backend, t["a"]))
             return "%s.%s(%r)" % (r(ch[0]), name, t["b"])
+        if k == "Meth" and t["a"] in MOMENTS:
+            return "%s.%s(%r)" % (r(ch[0]), MOMENTS[t["a"]], t["a"])
         if k == "Meth":
             return "%s.%s(%s)" % (r(ch[0]), t["a"], ", ".join(r(c) for c in ch[1:]))
+        if k == "NonNull":
+            return "isNonnull(%s)" % r(ch[0])
+        if k == "Let":
+            return "(lambda %s: %s)(%s)" % (nm(t["a"]), r(ch[1]), r(ch[0]))
         if k == "Range":
             return "Range(%s, %s)" % (r(ch[0]), r(ch[1]))
         if k == "Idx":
